@@ -288,7 +288,10 @@ fn eval_date_add<'a>(args: &[Option<Value<'a>>]) -> Option<Value<'a>> {
 
     let (year, month, day) = parse_date(&date_str)?;
     let day_number = date_to_days(year, month, day);
-    let new_day_number = day_number + days;
+    let new_day_number = match day_number.checked_add(days) {
+        Some(n) if (MIN_DAY_NUMBER..=MAX_DAY_NUMBER).contains(&n) => n,
+        _ => return Some(Value::Null),
+    };
     let (new_year, new_month, new_day) = days_to_date(new_day_number);
 
     Some(Value::Text(Cow::Owned(format!(
@@ -303,7 +306,10 @@ fn eval_date_sub<'a>(args: &[Option<Value<'a>>]) -> Option<Value<'a>> {
 
     let (year, month, day) = parse_date(&date_str)?;
     let day_number = date_to_days(year, month, day);
-    let new_day_number = day_number - days;
+    let new_day_number = match day_number.checked_sub(days) {
+        Some(n) if (MIN_DAY_NUMBER..=MAX_DAY_NUMBER).contains(&n) => n,
+        _ => return Some(Value::Null),
+    };
     let (new_year, new_month, new_day) = days_to_date(new_day_number);
 
     Some(Value::Text(Cow::Owned(format!(
@@ -419,6 +425,9 @@ fn eval_to_days<'a>(args: &[Option<Value<'a>>]) -> Option<Value<'a>> {
 
 fn eval_from_days<'a>(args: &[Option<Value<'a>>]) -> Option<Value<'a>> {
     let days = get_int(args.first()?)?;
+    if !(MIN_DAY_NUMBER..=MAX_DAY_NUMBER).contains(&days) {
+        return Some(Value::Null);
+    }
     let (year, month, day) = days_to_date(days);
     Some(Value::Text(Cow::Owned(format!(
         "{:04}-{:02}-{:02}",
@@ -543,6 +552,10 @@ fn eval_str_to_date<'a>(args: &[Option<Value<'a>>]) -> Option<Value<'a>> {
         Some(Value::Null)
     }
 }
+
+/// Day numbers of 0001-01-01 and 9999-12-31 (see date_to_days): results outside are NULL.
+const MIN_DAY_NUMBER: i64 = 1;
+const MAX_DAY_NUMBER: i64 = 3_652_059;
 
 fn parse_date(s: &str) -> Option<(i64, u32, u32)> {
     let date_part = s.split(' ').next()?;
